@@ -700,8 +700,8 @@ fn run(ctx: &mut Ctx, rep: &mut Report) {
                         if rep.samples.len() < MAX_SAMPLES && rep.evaluations % 5003 == 0 {
                             rep.sample(|| json!({"initial": hex(init), "steps": steps_json(&script), "class": c}));
                         }
-                        // quick tier: three steps from the first six initial packets, two from the others
-                        let depth = if ctx.tier == Tier::Quick && ii >= 6 { 2 } else { depth };
+                        // quick tier: three steps from the first three initial packets, two from the others
+                        let depth = if ctx.tier == Tier::Quick && ii >= 3 { 2 } else { depth };
                         if script.len() < depth && !c.starts_with("native_panic") {
                             // successor alphabet from the state the native run reaches
                             let mut pp = crate::subj::parse(init).unwrap();
